@@ -105,6 +105,17 @@ def gen(rng, idx, tier):
         for j in range(rng.randrange(1, 3)):
             ops.append({"on_accept": len(script) - 1, "d": rng.choice([0.1, 1.0]), "op": "send",
                         "msg": _with_source(session.sendable(rng), 30 + j), "id": 30 + j, "kind": "ok"})
+    if fault and rng.random() < 0.4:
+        # a read-side fault (EOF / reset) while one send() is suspended in drain() and another one waits behind it:
+        # the queued message must go to the link that is current when its turn comes
+        entry["w"] = {"pause": {str(i): rng.choice([0.5, 1.0, 2.0]) for i in range(1 if kind == "waveshare" else 0, 4)}}
+        entry["end"] = {"k": rng.choice(["eof", "reset"]), "after": sum(len(sg[1]) // 2 for sg in segs), "d": rng.choice([0.05, 0.3, 0.6])}
+        entry["gaps"] = [0.01]
+        t1 = rng.choice([0.1, 0.2])
+        ops = [o for o in ops if o["op"] != "send" or "on_accept" in o]
+        for i in range(rng.randrange(2, 4)):
+            ops.append({"at": t1 + i * rng.choice([0.0, 0.001, 0.01]), "op": "send", "msg": _with_source(session.sendable(rng, multi=(i == 0 or rng.random() < 0.5)), 10 + i),
+                        "id": 10 + i, "kind": "ok"})
     status = session.cb_faults(rng, 12, p_raise=rng.choice([0, 0.3]), p_delay=rng.choice([0, 0.3]), delays=(0.001, 0.1, 1.0))
     return {"client": kind, "config": {}, "script": script, "ops": ops, "cb": {"status": status},
             "knobs": {"min_end": 5.0, "tail": (c13.RECOVER_S + 10.0) if fault else (QUIET_S + 5.0), "max_end": 2000.0, "hb": 1.0},
@@ -207,13 +218,31 @@ def execute(plan):
         writes = [w[2] for w in c["written"]]
         if kind == "waveshare" and writes and writes[0][2:3] == b"\x02":
             writes = writes[1:]            # the serial client's configuration packet
+        wtimes = [w[0] for w in c["written"]]
+        if len(wtimes) != len(writes):
+            wtimes = wtimes[len(wtimes) - len(writes):]
         blocks = []
-        for b in writes:
+        first_at = []
+        for b, wt in zip(writes, wtimes):
             s = _src_of(kind, b)
             if blocks and blocks[-1][0] == s:
                 blocks[-1][1].append(b)
             else:
                 blocks.append([s, [b]])
+                first_at.append(wt)
+        # ---- W3.stale: a message whose first packet is written after a newer connection was reported CONNECTED
+        #      must not go to the abandoned connection
+        for (s, pk), t0 in zip(blocks, first_at):
+            newer = [c2 for c2 in o.conns if c2["id"] > c["id"]]
+            for c2 in newer:
+                conn_ev = c13._accept_ev(o, c2)
+                rep = next((st_[1] for st_ in o.status if st_[0] > conn_ev and st_[3] == "CONNECTED"), None)
+                if rep is not None and rep < t0 and s in src_to_id:
+                    mid = src_to_id[s]
+                    v.append(viol("C19.W3.stale" + sfx, recs[mid]["start_ev"] if mid in recs else end_ev,
+                                  "send #%d wrote its first packet at t=%.6f to connection %d although connection %d had been "
+                                  "reported CONNECTED at t=%.6f: the message went to an abandoned link" % (mid, t0, c["id"], c2["id"], rep)))
+                    break
         seen = set()
         srcs = [b[0] for b in blocks if b[0] in src_to_id and src_to_id[b[0]] not in bad_ids]
         split = sorted({x for x in srcs if srcs.count(x) > 1})
@@ -249,8 +278,14 @@ def execute(plan):
             exp_m = [_mask(kind, p, fast) for p in exp]
             last_on_faulted = c["fault"] is not None and bi == len(blocks) - 1
             if got_m != exp_m:
+                started_before = mid in recs and recs[mid]["start"] < c["at"]
                 if (last_on_faulted or c["fault"] is not None) and got_m == exp_m[:len(got_m)]:
                     st["partial_block_on_faulted_connection"] = st.get("partial_block_on_faulted_connection", 0) + 1
+                elif started_before and got_m and got_m == exp_m[len(exp_m) - len(got_m):]:
+                    # the link was replaced while this message was being written: its remaining packets appear on the
+                    # new link (receivers ignore continuation frames without a first frame); the statement does not
+                    # forbid it, so it is counted, not judged
+                    st["message_tail_after_reconnect"] = st.get("message_tail_after_reconnect", 0) + 1
                 else:
                     v.append(viol("C19.W1.content" + sfx, recs[mid]["start_ev"] if mid in recs else end_ev,
                                   "connection %d: packets written for the message from source %d differ from the encoder's "
